@@ -1,5 +1,6 @@
 """Common part of the two stream-sim engines (C06, C07)."""
-from .. import streamsim, texapi
+from .. import simreader, streamsim, texapi
+from ..rng import digest
 from ..stepclock import CLOCK
 
 
@@ -17,15 +18,29 @@ def make(prop):
         return streamsim.gen_case(st, prop)
 
     def run(case):
-        r = streamsim.execute(case, props=(prop,))
+        try:
+            r = streamsim.execute(case, props=(prop,))
+        except MemoryError:
+            # the tree (or its text) outgrew the world's memory cap after the parse returned
+            import gc
+            gc.collect()
+            D = ''.join(simreader.apply_faults(case['wire'], case.get('faults', []))[0])
+            v = {'class': 'resource-exhaustion:memory', 'tolerance': 1,
+                 'detail': 'parsing or printing %d chars exhausted the memory cap of the world' % len(D)}
+            lg = [('deliver', case['form'], digest(D)), ('memory-exhausted',)]
+            return {'violation': v if prop == 'C06' else None, 'digest': digest(lg), 'log': lg,
+                    'counters': {'memory-exhausted': 1}, 'ticks': 0, 'key': digest([D]), 'nontrivial': True,
+                    'buckets': {}, 'summary': {'D': D, 'outcomes': 'memory', 'mode': case['mode']}}
         v = r['verdicts'][prop]
         return {'violation': v, 'digest': r['digest'], 'log': r['log'], 'counters': r['counters'],
-                'ticks': r['ticks'], 'key': r['key'], 'nontrivial': r['nontrivial'],
+                'ticks': r['ticks'], 'key': r['key'], 'nontrivial': r['nontrivial'], 'buckets': r['buckets'],
                 'summary': dict(r['extra_summary'], D=r['D'], outcomes='/'.join(r['outcomes']),
                                 mode=case['mode'])}
 
     def minimize(case, fails):
-        return streamsim.minimize(case, fails)
+        r = streamsim.execute(case, props=(prop,))['verdicts'][prop]
+        slow = bool(r) and r['class'] in ('hang', 'resource-exhaustion:memory')
+        return streamsim.minimize(case, fails, slow=slow)
 
     def sample(case, res):
         return {'mode': case['mode'], 'form': case['form'], 'faults': case.get('faults', []),
